@@ -175,6 +175,16 @@ pub fn gen_driver(prop: &str, rng: &mut Rng, sh: &mut Shards, out: &str, thoroug
                     progs.push((Program { data: Vec::new(), items, interp: false, stdin: Vec::new(), note: "syntax-truncated".into() }, lay));
                 }
             }
+            // the file ends after a token of one character that stands alone on the last line: the end-of-input diagnostic
+            // cites that line (the last thing that was read), not the line before it
+            for (head, tail) in [("mov ax", ","), ("xchg cl", ","), ("shl dx", ","), ("inc word", "["), ("print mem 0", ":")] {
+                for nl in [true, false] {
+                    let items: Vec<Item> = vec![Item::Label("start".into()), Item::Ins(Ins::Ctl { op: "nop" }), Item::Ins(Ins::Unsupported { text: head.to_string() }), Item::Bad(Ins::Unsupported { text: tail.to_string() }, String::new())];
+                    let mut lay = Layout::plain();
+                    lay.trailing_newline = nl;
+                    progs.push((Program { data: Vec::new(), items, interp: false, stdin: Vec::new(), note: "syntax-truncated-last-line".into() }, lay));
+                }
+            }
             // the very first line of the file: a message / a prompt / a diagnostic citing line 1 (there is no line end before it)
             for rep in 0..16 {
                 let variant = rep % 4;
